@@ -238,7 +238,7 @@ func c13BuildSpecials() {
 		c13Call("hJoin", c13Str("k1"), c13Str("zed")), c13Call("hJoin"), c13Call("hSum", c13Int(1), c13Int(2), c13Int(3)), c13Call("hSum", n1),
 		c13Call("hCtx", s1), c13Call("hCtxSub", n1, n2), c13Call("hCtxJoin", s1, c13Str("k1")), c13Call("hCtxJoin", s1), c13Call("hCtxJoin"), c13Call("hCtxSum", n1, n2, c13Int(3)), c13Call("hCtxSum", n1), c13Call("hErrS", s1), c13Call("hErrI", n1), c13Call("hFSub", c13P("f1"), c13Lit("f", "0.5")),
 		c13Call("hUSum", c13Int(1), c13Int(2)), c13Call("hSub64", c13P("i64"), c13Int(2)), c13Call("hRep", s1, c13Int(2)), c13Call("hRep", s1, c13P("n0")),
-		c13Call("hItemTitle", c13P("st")), c13Call("hPItemCount", c13P("ps")),
+		c13Call("hItemTitle", c13P("st")), c13Call("hPItemCount", c13P("ps")), c13Call("hArr2", c13P("li")), c13Call("hArr2", c13P("li1")),
 	} {
 		add("call/custom", e)
 	}
@@ -283,6 +283,45 @@ func c13BuildSpecials() {
 		c13Call("hNot", c13Bin(">", n1, n2)), c13Call("hSub", c13Bin("*", n1, c13Int(2)), n2),
 	} {
 		add("call-expr-arg/custom", e)
+	}
+	// a float32 that is not exactly representable keeps its own shortest form when it becomes a string
+	for _, e := range []c13E{
+		c13Pipe(c13P("f32b"), c13Call("hCat", c13Str("k1"))), c13Call("hCat", c13P("f32b"), c13Str("k1")), c13Call("hCat", c13Str("k1"), c13P("f32b")), c13P("f32b"), c13Pipe(c13P("f32b"), c13Call("hBr")),
+	} {
+		add("float32-to-string", e)
+	}
+	// the head of a pipe is an expression like any other: a literal (the form the
+	// documentation's own examples use), a call, an operator expression
+	for _, e := range []c13E{
+		c13Pipe(c13Str("k1"), c13Call("hRep", c13Int(2))), c13Pipe(c13Str("k1"), c13Call("upper")), c13Pipe(c13Str("k1"), c13Call("hCat", s1), c13Call("upper")),
+		c13Pipe(c13Int(5), c13Call("hDbl")), c13Pipe(c13Int(5), c13Call("hSub", c13Int(1))), c13Pipe(c13Int(5), c13Call("hDbl"), c13Call("string"), c13Call("hCat", c13Str("k1"))),
+		c13Pipe(c13Lit("f", "2.5"), c13Call("hFSub", c13Lit("f", "0.5"))), c13Pipe(c13Str("zed"), c13Call("len")),
+	} {
+		add("pipe-head/literal", e)
+	}
+	for _, e := range []c13E{
+		c13Pipe(c13Call("len", c13P("l")), c13Call("hSub", c13Int(1))), c13Pipe(c13Call("hSum", c13Int(1), c13Int(2)), c13Call("hSub", c13Int(3))), c13Pipe(c13Call("upper", s1), c13Call("hCat", c13Str("k1"))),
+		c13Pipe(c13Call("hDbl", n1), c13Call("hDbl")), c13Pipe(c13Call("hCat", s1, s2), c13Call("upper"), c13Call("len")),
+	} {
+		add("pipe-head/call", e)
+	}
+	for _, e := range []c13E{
+		c13Pipe(c13Bin("+", n1, c13Int(1)), c13Call("hSub", c13Int(1))), c13Pipe(c13Bin("+", s1, c13Str("k1")), c13Call("upper")), c13Pipe(c13Bin("*", n1, n2), c13Call("hDbl"), c13Call("hSub", n2)),
+		c13Pipe(c13Tern(c13P("bt"), s1, s2), c13Call("upper")), c13Pipe(c13Un("-", n1), c13Call("hDbl")),
+	} {
+		add("pipe-head/expr", e)
+	}
+	// arguments are expressions too: a call, a call whose own arguments hold a comma, a unary minus
+	for _, e := range []c13E{
+		c13Call("upper", c13Call("trim", c13P("sp"))), c13Call("hSub", n1, c13Call("hDbl", n2)), c13Call("hSub", n1, c13Call("hSum", c13Int(1), c13Int(2))), c13Call("hCat", c13Call("upper", s1), c13Call("lower", s2)),
+		c13Call("len", c13Call("hCat", s1, s2)), c13Pipe(s1, c13Call("hCat", c13Call("upper", s2))), c13Pipe(n1, c13Call("hSub", c13Call("hDbl", n2))),
+	} {
+		add("call-arg/nested-call", e)
+	}
+	for _, e := range []c13E{
+		c13Call("hSub", n1, c13Un("-", n2)), c13Pipe(n1, c13Call("hSub", c13Un("-", n2))), c13Call("hDbl", c13Un("-", n1)), c13Call("hNot", c13Un("!", c13P("bt"))), c13Pipe(n1, c13Call("hSub", c13Bin("+", n2, c13Int(1)))),
+	} {
+		add("call-arg/unary-or-operator", e)
 	}
 	for _, e := range []c13E{
 		c13Call("len", c13Bin("+", s1, s2)), c13Call("upper", c13Bin("+", s1, c13Str("k1"))), c13Call("upper", c13Tern(c13P("bt"), s1, s2)),
